@@ -642,7 +642,7 @@ func main() {
 		}
 	}
 	// token-mutation fuzz of corpus queries
-	nFuzz := ctx.N(2500, 60000)
+	nFuzz := ctx.N(4000, 60000)
 	var fuzz []*prepared
 	pool := tokenPool(corpus)
 	for tries := 0; len(fuzz) < nFuzz && tries < nFuzz*20; tries++ {
@@ -660,7 +660,7 @@ func main() {
 		fuzz = append(fuzz, p)
 	}
 
-	capPolls := ctx.N(300, 2500)
+	capPolls := ctx.N(400, 2500)
 	vm := ctx.NewStream("vm", "Gojq.VM.next / history (Model/VM.lean): the (value, ok) history of successive Next calls on the real bytecode, uncancelled and cancelled at poll k",
 		"one case per (program, input): the uncancelled history in full plus the hashed history for every listed cancellation point; distinct = distinct implementation answers")
 	lock := ctx.NewStream("lockstep", "Gojq.VM.step / exec (Model/VM.lean): pc, backtrack, err, |forks|, index/limit/len of the three stacks, offset, |values|, expdepth, label at the top of every instruction (VerifStep)",
@@ -697,7 +697,7 @@ func main() {
 			top = capPolls
 		}
 		for k := 0; k <= top; k++ {
-			if allK || ctx.Thorough || k <= 200 || k%7 == 0 || k >= top-3 {
+			if allK || ctx.Thorough || k <= 250 || k%5 == 0 || k >= top-3 {
 				ks = append(ks, k)
 			}
 		}
@@ -749,7 +749,7 @@ func main() {
 
 	// ----- fuzz: extra Next calls never panic; a sample also goes through the model -------------
 	fz := ctx.NewOracle("extra-next-fuzz", "token-mutated corpus queries that still compile: run under a 1500-poll budget (a) through errors to the end, (b) to the first error, then 8 more Next calls: no panic, and (nil,false) for ever after the first (nil,false) or context error; distinct = distinct mutated queries")
-	nModel := ctx.N(250, 3000)
+	nModel := ctx.N(800, 4000)
 	for i, p := range fuzz {
 		fz.Cases++
 		fz.Distinct++
